@@ -281,6 +281,133 @@ def run_literals(spec, rec, rng):
                      expected=sorted(x.short_name for x in eds))
 
 
+# ------------------------------------------------------------------ statutes written from the database templates
+
+_LAW_TOKEN = re.compile(r"\$([a-z_]+)|\(\?P<(\w+)>((?:[^()\\]|\\.)*)\)|\\(.)|(,\?)|(.)", re.S)
+_LAW_VALUES = {"law_section": ["120.68", "2", "12-34", "1.2.3", "5:10", "1001", "33-4.5"],
+               "law_subject": ["Penal", "Civ. Proc.", "Educ.", "Bus. & Prof."],
+               "law_year": ["1999", "2004", "1887"], "volume": ["12", "3", "101"],
+               "page_with_commas": ["123", "1,234", "7"]}
+_LAW_GROUP = {"law_section": "section", "law_subject": "subject", "law_year": "year", "volume": "volume",
+              "page_with_commas": "page"}
+
+
+def law_instance(key, template, rng):
+    """Write one citation from a reporters-db law template *without* going through eyecite's pattern builder:
+    variables get literal values, named groups a sampled member, escapes are undone. Returns (text, groups)
+    or None when the template uses regex syntax beyond that."""
+    out, groups = [], {}
+
+    def render(t, into):
+        for m in _LAW_TOKEN.finditer(t):
+            var, gname, gbody, esc, optcomma, ch = m.groups()
+            if var:
+                if var == "reporter":
+                    into.append(key)
+                    groups["reporter"] = key
+                elif var in _LAW_VALUES:
+                    v = rng.choice(_LAW_VALUES[var])
+                    into.append(v)
+                    groups[_LAW_GROUP[var]] = v
+                else:
+                    return False
+            elif gname:
+                if "$" in gbody or gname == "reporter":
+                    sub = []
+                    if not render(gbody, sub):
+                        return False
+                    v = "".join(sub)
+                else:
+                    try:
+                        v = sample(gbody, rng, 0, maxrep=2, ascii_only=True)
+                    except Exception:
+                        return False
+                    if not re.fullmatch(gbody, v):
+                        return False
+                into.append(v)
+                groups[gname] = v
+            elif esc:
+                if esc.isalnum():
+                    return False
+                into.append(esc)
+            elif optcomma:
+                into.append(rng.choice([",", ""]))
+            elif ch in "()[]{}*+?|^$.":
+                if ch == ".":
+                    into.append(".")    # 'r. ' written unescaped in two templates: the literal is a member
+                    continue
+                return False
+            else:
+                into.append(ch)
+        return True
+
+    if not render(template, out):
+        return None
+    return "".join(out), groups
+
+
+def run_law_literals(spec, rec, rng):
+    """Every (law key, template) of reporters-db written literally, the section sign as '§ ', '§', '§§ ' and
+    '§§' (the builder documents the last three as accepted)."""
+    from reporters_db import LAWS
+    from eyecite.models import FullLawCitation, ReferenceCitation, UnknownCitation
+    n = -1
+    for key in sorted(LAWS):
+        for entry in LAWS[key]:
+            for template in entry["regexes"]:
+                n += 1
+                if n % spec["nshards"] != spec["i"]:
+                    continue
+                for rep in range(spec["k"] * 2):
+                    inst = law_instance(key, template, rng)
+                    if inst is None:
+                        rec.count("law_template_outside_literal_syntax")
+                        break
+                    core0, groups = inst
+                    signs = ["§ ", "§", "§§ ", "§§"] if "§ " in core0 else [None]
+                    for sign in signs:
+                        core = core0.replace("§ ", sign) if sign else core0
+                        pre = rng.choice(["See ", "under ", "", "It is governed by "])
+                        term = rng.choice([". Further text follows.", "; further text.", ".", " (2007).", ", and more."])
+                        text = pre + core + term
+                        case = dict(text=text, origin=dict(law=key, template=template, sign=sign), core=core)
+                        law_literal(rec, text, len(pre), core, groups, case)
+
+
+def law_literal(rec, text, st, core, groups, case):
+    from eyecite.models import FullLawCitation, ReferenceCitation, UnknownCitation
+    cs = extract(text, rec, case)
+    if cs is None:
+        return
+    rec.ev()
+    rec.nontrivial(text)
+    rec.count("law_literals_checked")
+    rec.count("law_literal_sign:" + repr(case["origin"].get("sign")))
+    en = st + len(core)
+    good = [c for c in cs if type(c) is FullLawCitation and c.span() == (st, en)
+            and all(c.groups.get(k) == v for k, v in groups.items())]
+    rest = [c for c in cs if c not in good and not isinstance(c, ReferenceCitation)]
+    if len(good) == 1 and not rest:
+        rec.count("law_literal_ok:" + repr(case["origin"].get("sign")))
+        return
+    # a second pattern matching other characters, or the same characters with another group structure?
+    for o in gen.DB.cit_extractors:
+        if o.strings and not any(x in text for x in o.strings):
+            continue
+        for m in o.compiled_regex.finditer(text):
+            a, b = m.span(1) if m.re.groups else m.span()
+            if b <= st or a >= en:
+                continue
+            gd = m.groupdict()
+            if (a, b) != (st, en) or any(gd.get(k) != v for k, v in groups.items()):
+                rec.count("second_pattern_tie")
+                rec.count("law_literal_tie")
+                if len(rec.samples) < 6:
+                    rec.sample(dict(tie=text, other=m.group(0), got=[(M.kind(c), c.span()) for c in cs]))
+                return
+    fail(rec, "law_literal", case, observed=[(M.kind(c), c.span(), c.groups) for c in cs], expected=dict(span=(st, en), groups=groups))
+
+
 def db_examples():
     from reporters_db import JOURNALS, LAWS, REPORTERS
     out = []
@@ -353,7 +480,7 @@ def check_full(rng, rec):
     # otherwise its own core and pin cite
     first_end = cite_end if year else (c1 + (len(", " + pc) if pc else 0))
     needs_term = bool(pc) and not year and not parallel
-    s += rng.choice([". Further text follows.", "; the rest.", "."]) if needs_term else \
+    s += rng.choice([". Further text follows.", "; the rest.", ".", "] then.", ") then.", ", then."]) if needs_term else \
         rng.choice([". Further text follows.", "; the rest.", ".", "", ", and so on."])
     if s.endswith(".") and rng.random() < 0.25:
         # later parentheses in the same paragraph (inside the 300-character scan window)
@@ -557,7 +684,7 @@ def check_short(rng, rec):
     st = len(s)
     s += f"{vol} {rep}{c2} at {pin}"
     en = len(s)
-    term = rng.choice(TERM[:6])
+    term = rng.choice(TERM[:7])
     par = term[2:-2] if term.startswith(" (") else None
     s += term
     case = dict(text=s, form="short")
@@ -598,7 +725,7 @@ def check_supra(rng, rec):
     comma = not pin and rng.random() < 0.5
     if comma:
         s += ","
-    term = rng.choice(TERM[:6]) if pin else rng.choice([" Further text.", " and further."] if comma else [". Further text.", " and further.", "."])
+    term = rng.choice(TERM[:7]) if pin else rng.choice([" Further text.", " and further."] if comma else [". Further text.", " and further.", "."])
     par = term[2:-2] if term.startswith(" (") else None
     s += term
     case = dict(text=s, form="supra")
@@ -638,7 +765,7 @@ def check_id(rng, rec):
     if pin:
         s += f" at {pin}"
     en = len(s)
-    term = rng.choice(TERM[:6]) if pin else rng.choice([" Further text.", " (noting lekfen)."])
+    term = rng.choice(TERM[:7]) if pin else rng.choice([" Further text.", " (noting lekfen)."])
     par = term[2:-2] if term.startswith(" (") else None
     s += term
     case = dict(text=s, form="id")
@@ -776,6 +903,7 @@ def run_shard(spec, rec):
     rec.count("extractors_total", len(gen.DB.cit_extractors) if spec["i"] == 0 else 0)
     run_minimal(spec, rec, rng)
     run_literals(spec, rec, rng)
+    run_law_literals(spec, rec, rng)
     run_examples(spec, rec, rng)
     rec.c01_tag = None
     run_courts(spec, rec, rng)
@@ -798,6 +926,8 @@ def replay(w, rec):
         return
     t = c["text"]
     rec.note("re-extraction of witness text: " + repr([(M.kind(x), x.span(), x.full_span(), x.groups, x.metadata) for x in get_citations(t)])[:1500])
+    if "origin" in c and "core" in c and "law" in c["origin"]:
+        return
     if "origin" in c and "core" in c:
         o = c["origin"]
         if "extractor" in o and o["extractor"] < len(gen.DB.cit_extractors):
